@@ -75,6 +75,18 @@ class Prop:
                     for flag in ['', ' all']:
                         cs.append(Case('rep %d proj all %s%s' % (reps, spec_ordered(root, tp, rp), flag), 'project',
                                        meta=('g%d%s' % (gid, flag))))
+        # the same schema text with the same types, alone and as one schema of a project whose schemas are all created (and loaded)
+        # before the types are registered on each of them - next to schemas with nothing to load, half-way failing ones, a twin
+        asks = 'c%d l%d e%d a%d u%d o%d'
+        for (root, types, rules) in projects():
+            if not types:
+                continue
+            gid += 1
+            m = spec(root, types, rules)
+            cs.append(Case('hist %s ;; r0 u0 t0 %s' % (m, asks % ((0,) * 6)), 'project-in-a-project', meta=('late', gid, 'alone')))
+            for d in [spec('', types, rules), spec('# nothing here\n', types, rules), spec('{"a": @foo | @bar,', types, rules), m]:
+                cs.append(Case('hist %s ; %s ;; r0 u0 r1 u1 t0 t1 %s' % (d, m, asks % ((1,) * 6)), 'project-in-a-project', meta=('late', gid, 'after')))
+                cs.append(Case('hist %s ; %s ;; r0 u0 r1 u1 t1 t0 %s' % (m, d, asks % ((0,) * 6)), 'project-in-a-project', meta=('late', gid, 'before')))
         for e in samples.ENUMS + ['["a.b", "c.d"]', '[1, 1]', '[1', '["x", // c\n "y"]']:
             cs.append(Case('rep %d enumrule %s' % (reps, hx(e)), 'enum-rule'))
         for r in samples.REGEXES + ['/[/', 'x', '/a|b/']:
@@ -120,10 +132,22 @@ class Prop:
     def extra_checks(self, tier, rng, cases, impl):
         """registration order: all permutations of one project must give the same results"""
         groups = {}
+        late = {}
         for c, o in zip(cases, impl):
-            if c.meta:
+            if isinstance(c.meta, tuple):
+                late.setdefault(c.meta[1], []).append((c, o))
+            elif c.meta:
                 groups.setdefault(c.meta, []).append((c, o))
         bad = []
+        for g, items in late.items():
+            tail = lambda o: o.split(' ')[-7:-1]          # the six answers about the schema itself
+            ref = [tail(o) for c, o in items if c.meta[2] == 'alone'][0]
+            for c, o in items:
+                if tail(o) != ref:
+                    bad.append((Case(c.line, 'project-in-a-project'),
+                                'the answers for one schema text with one set of types depend on the other schemas of the project: '
+                                '%s vs alone %s' % (' '.join(tail(o))[:200], ' '.join(ref)[:200])))
+                    break
         for g, items in groups.items():
             ref = items[0][1]
             for c, o in items[1:]:
@@ -139,7 +163,9 @@ class Prop:
                  'nested or rule-sets, recursion) under up to 6 permutations of AddType and 2 of AddRule and both registration styles; '
                  'enum rules, regexes, JSON documents, literals for GuessSchemaType/NewNumber; each call repeated 8 times in one process '
                  'and in three processes (one with GOGC=1 to move heap addresses); all public results incl. a hash of the error '
-                 'message are compared byte for byte',
+                 'message are compared byte for byte; every typed project also as one schema of a larger project (all schemas created and '
+                 'loaded first, types registered afterwards) next to empty, comment-only, half-way failing and twin schemas: the answers '
+                 'must be those of the schema alone',
             trusted=['Coq kernel incl. vm_compute', 'translator gotables NondetSites (go/types: every range over a map with the class of its body, every %p)',
                      'the argument that the premises of the generic order-freeness theorems hold at each accounted site (DESIGN)',
                      'harness cmd/implrun/rep.go'],
